@@ -129,4 +129,48 @@ theorem getFrame_wrap {f : Forest} {n name : Nat} {t : HTree} (inv : f.Inv)
   rw [e]
   exact getFrame_specWrap name inv hg hzl h1 h3
 
+/-! ### text_content_mut().set() -/
+
+theorem getFrame_specSetValue {f : Forest} (nd : f.allHandles.Nodup) {n z : Nat} (v : Value) (hne : z ≠ n) :
+    GetFrame f (specSetValue n v f) z := by
+  intro t hg
+  have hth : t.handle = z := (findList?_some f.roots t hg).1
+  have hg' : (specSetValue n v f).get? z = some (mapAt n (HTree.setValue v) t) := by
+    rw [specSetValue_get nd n z v, hg]; rfl
+  obtain ⟨a, b⟩ := fg_mapAt_setValue_top v t (by rw [hth]; exact hne)
+  exact ⟨_, hg', a, b⟩
+
+theorem getFrame_textContentSet {f : Forest} (inv : f.Inv) {n : Nat} {s : Str}
+    (hok : (f.textContentSet n s).2 = .ok) {z : Nat} (hzl : f.isLive z = true) (hne : z ≠ n)
+    (hk : z ∉ f.kidHandles n) : GetFrame f (f.textContentSet n s).1 z := by
+  rw [textContentSet_spec inv hok]
+  have hzn : z ≠ f.next := by
+    obtain ⟨u, hu⟩ := Forest.get_of_live hzl
+    intro e
+    exact Nat.lt_irrefl _ (e ▸ inv.below _ (mem_of_findList?_some hu))
+  unfold specTextContentSet
+  split
+  · intro u hu
+    obtain ⟨u', h1, _, _, h3, h4, _⟩ := Forest.editAt_get_frame
+      (g := insertLast (.node f.next (.text s) [])) inv.nodup hne hu (fun v L _ => by
+        show findList? z (L ++ [HTree.node f.next (.text s) []]) = findList? z L
+        rw [findList?_append, findList?_cons, find?_fresh_leaf _ hzn, findList?_nil]
+        cases findList? z L <;> rfl)
+    exact ⟨u', h1, h3, h4⟩
+  · rename_i c hc
+    apply getFrame_specSetValue inv.nodup
+    intro e
+    apply hk
+    have hcm : c ∈ (f.kidsOf n).filter (fun k => k.value.isNormal) := by
+      rw [hc]; exact List.mem_singleton.2 rfl
+    have hm := (List.mem_filter.1 hcm).1
+    unfold Forest.kidsOf at hm
+    unfold Forest.kidHandles
+    cases hg : f.get? n with
+    | none => rw [hg] at hm; cases hm
+    | some t =>
+      rw [hg] at hm
+      exact List.mem_map.2 ⟨c, hm, e.symm⟩
+  · exact GetFrame.refl f z
+
 end XotModel
